@@ -126,7 +126,11 @@ class Ctx(object):
             self.feas.add(c)
 
     def path_id(self):
-        return "".join("T" if b else "F" for b in self.taken) or "-"
+        s = "".join("T" if b else "F" for b in self.taken) or "-"
+        if len(s) > 24:
+            import hashlib
+            s = "%s~%s(%d)" % (s[:8], hashlib.sha1(s.encode()).hexdigest()[:8], len(s))
+        return s
 
     def decide(self, c):
         c = z3.simplify(c)
